@@ -1439,9 +1439,6 @@ func (cs *clientStream) writeRequest(req *http.Request, streamf func(*clientStre
 			}
 		} else {
 			cs.sentEndStream = true
-			for _, dump := range bodyDumps {
-				dump.DumpDefault([]byte("\r\n\r\n"))
-			}
 		}
 	}
 
@@ -1737,6 +1734,12 @@ func (cs *clientStream) writeRequestBody(req *http.Request, dumps []*dump.Dumper
 		writeData = func(streamID uint32, endStream bool, data []byte) error {
 			for _, dump := range dumps {
 				dump.DumpRequestBody(data)
+				if endStream {
+					// The separator that ends the dumped body goes out before the frame
+					// that ends the stream: once the peer has END_STREAM its response is
+					// dumped by the read loop, and RoundTrip may return.
+					dump.DumpDefault([]byte("\r\n\r\n"))
+				}
 			}
 			return cc.fr.WriteData(streamID, endStream, data)
 		}
@@ -1836,6 +1839,9 @@ func (cs *clientStream) writeRequestBody(req *http.Request, dumps []*dump.Dumper
 		}
 	}
 
+	for _, dump := range dumps {
+		dump.DumpDefault([]byte("\r\n\r\n"))
+	}
 	// Two ways to send END_STREAM: either with trailers, or
 	// with an empty DATA frame.
 	if len(trls) > 0 {
